@@ -27,6 +27,7 @@ fn dispatch(req: &Value) -> Value {
         "constraints" => ops_case::constraints(req),
         "identifiers" => ops_case::identifiers(req),
         "resolve" => ops_case::resolve(req),
+        "enhanced_matches" => ops_case::enhanced_matches(req),
         // plan / splice / serde
         "splice" => ops_plan::splice(req),
         "patch_headers" => ops_plan::patch_headers(req),
